@@ -361,6 +361,46 @@ fn verify_of(c: &config::Encoder) -> Result<Result<(), String>, crate::util::Pan
     catch(|| c.verify().map_err(|e| format!("{e}")))
 }
 
+/// The same document through the other deserialisation routes of the toml crate (document model with owned strings,
+/// byte slice): each must agree with `toml::from_str` (the configuration is a serde type; nothing in the property ties
+/// it to one deserializer of the TOML crate).
+fn alt_parse_routes(text: &str, primary: &CfgSpec) -> Option<(String, String)> {
+    let via_value = catch(|| text.parse::<toml::Value>().map_err(|e| format!("{e}")).and_then(|v| v.try_into::<config::Encoder>().map_err(|e| format!("{e}"))));
+    let via_slice = catch(|| toml::from_slice::<config::Encoder>(text.as_bytes()).map_err(|e| format!("{e}")));
+    for (name, r) in [("toml::Value::try_into", via_value), ("toml::from_slice", via_slice)] {
+        match r {
+            Err(p) => return Some((format!("parse-panic:{name}:{}", normalise(&p.sig())), format!("{} at {}\n{text}", p.msg, p.loc))),
+            Ok(Err(e)) => return Some((format!("route-disagrees:{name}:rejects"), format!("toml::from_str accepts the document but {name} rejects it: {e}\n{text}"))),
+            Ok(Ok(c)) => {
+                let diffs = differences(primary, &CfgSpec::from_encoder(&c));
+                if !diffs.is_empty() {
+                    return Some((format!("route-disagrees:{name}:{}", diffs[0].split(':').next().unwrap_or("")), format!("{}\n{text}", diffs.join("; "))));
+                }
+            }
+        }
+    }
+    None
+}
+
+/// Serialisation through the document model and the pretty printer must carry the same configuration.
+fn alt_serialise_routes(enc: &config::Encoder, cfg: &CfgSpec) -> Option<(String, String)> {
+    let via_value = catch(|| toml::Value::try_from(enc).map_err(|e| format!("{e}")).and_then(|v| v.try_into::<config::Encoder>().map_err(|e| format!("{e}"))));
+    let via_pretty = catch(|| toml::to_string_pretty(enc).map_err(|e| format!("{e}")).and_then(|t| toml::from_str::<config::Encoder>(&t).map_err(|e| format!("{e}\n{t}"))));
+    for (name, r) in [("toml::Value::try_from/try_into", via_value), ("toml::to_string_pretty", via_pretty)] {
+        match r {
+            Err(p) => return Some((format!("serialise-panic:{name}:{}", normalise(&p.sig())), format!("{} at {}", p.msg, p.loc))),
+            Ok(Err(e)) => return Some((format!("round-trip-fails:{name}"), format!("{e}; {cfg:?}"))),
+            Ok(Ok(c)) => {
+                let diffs = differences(cfg, &CfgSpec::from_encoder(&c));
+                if !diffs.is_empty() {
+                    return Some((format!("round-trip-differs:{name}:{}", diffs[0].split(':').next().unwrap_or("")), format!("{}; {cfg:?}", diffs.join("; "))));
+                }
+            }
+        }
+    }
+    None
+}
+
 pub fn check(case: &Case19) -> Outcome {
     let mut out = Outcome::new(fnv(serde_json::to_string(case).unwrap_or_default().as_bytes()));
     let d = documented_defaults();
@@ -393,6 +433,10 @@ pub fn check(case: &Case19) -> Outcome {
             let diffs = differences(cfg, &CfgSpec::from_encoder(&back));
             if !diffs.is_empty() {
                 out.viol(format!("round-trip-differs:{}", diffs[0].split(':').next().unwrap_or("")), format!("{}\n{text}", diffs.join("; ")));
+                return out;
+            }
+            if let Some((sig, detail)) = alt_parse_routes(&text, &CfgSpec::from_encoder(&back)).or_else(|| alt_serialise_routes(&enc, cfg)) {
+                out.viol(sig, detail);
                 return out;
             }
             match (verify_of(&enc), verify_of(&back)) {
@@ -463,6 +507,10 @@ pub fn check(case: &Case19) -> Outcome {
                     format!("{}:{field}", if was_omitted { "omitted-field-not-documented-default" } else { "written-field-not-preserved" }),
                     format!("expected (written value, or documented default where omitted) vs parsed: {}\n{text}", diffs.join("; ")),
                 );
+                return out;
+            }
+            if let Some((sig, detail)) = alt_parse_routes(&text, &got) {
+                out.viol(sig, detail);
                 return out;
             }
             // verification of the parsed value == verification of the equivalent in-memory value
